@@ -46,7 +46,9 @@ def direct_cases(rng):
         for bad in ("abc", [1, 2], None, object(), torch.ones(3)):
             for nm, f in (("+", lambda x=x, b=bad: x + b), ("-", lambda x=x, b=bad: x - b), ("*", lambda x=x, b=bad: x * b), ("/", lambda x=x, b=bad: x / b)):
                 add("TT %s other" % nm, "wrong argument type %s" % type(bad).__name__, True, f)
-            add("TTM @ other", "wrong argument type %s" % type(bad).__name__, True if not torch.is_tensor(bad) else False, lambda A=A, b=bad: A @ b)
+            # a dense tensor IS a valid right operand of @ when its trailing shape fits: the incompatible one has a length no mode has, in the operator's dtype
+            bad_ = torch.ones(7, dtype=torch.float64) if torch.is_tensor(bad) else bad
+            add("TTM @ other", "wrong argument type %s" % type(bad).__name__, True if not torch.is_tensor(bad) else False, lambda A=A, b=bad_: A @ b)
         # multi-element tensor operands whose shape happens to broadcast against the first core (1 x n0 x r1)
         n0, r1_ = int(x.N[0]), int(x.R[1])
         for shp_ in ([r1_], [n0, 1], [n0, r1_], [1, n0, r1_], [n0]):
